@@ -361,6 +361,8 @@ int main(int argc, char **argv)
             opt.labels = atoi(a1) != 0;
             opt.separate_stderr = true;
             nhosts = n;
+            if (atoi(a2) != 0)
+                err_no_strip_domain();        /* opt.c: case 'K' -- option parsing precedes dsh(), hence _thd_init() */
             /* thread array as dsh() builds it: terminated with t[i].host == NULL */
             t = (thd_t *) Malloc(sizeof(thd_t) * (n + 1));
             wfd[0] = malloc(n * sizeof(int));
@@ -380,8 +382,6 @@ int main(int argc, char **argv)
                 fd_set_nonblocking(t[i].rcmd->fd);
                 fd_set_nonblocking(t[i].rcmd->efd);
             }
-            if (atoi(a2) != 0)
-                err_no_strip_domain();        /* opt.c: case 'K' */
             compute_domain_flag();
             ans_str("ok ");
             ans_int(keep_host_domain ? 1 : 0);
